@@ -34,8 +34,9 @@ type OptCase struct {
 	Relay  int      `json:"relay,omitempty"`
 	// stub
 	YIAddr string `json:"yiaddr,omitempty"`
-	// Pre: the stub already carries the plugin's option with another value
-	Pre bool `json:"pre,omitempty"`
+	// Pre: the stub already carries the plugin's option with another value (PreHex; default 01020304)
+	Pre    bool   `json:"pre,omitempty"`
+	PreHex string `json:"prehex,omitempty"`
 }
 
 var relevant4 = []uint16{1, 3, 6, 26, 51, 66, 67, 108, 116, 119, 121}
@@ -211,6 +212,10 @@ func GenOpt(t *rapid.T) OptCase {
 		c.PRL = perm
 	}
 	c.Pre = rapid.IntRange(0, 3).Draw(t, "pre") == 0
+	if c.Pre && !c.V6 {
+		// boundary values an earlier plugin may legitimately have set: zero, all ones, a single byte
+		c.PreHex = rapid.SampledFrom([]string{"01020304", "00000000", "ffffffff", "00", "0000000000000000"}).Draw(t, "prehex")
+	}
 	return c
 }
 
@@ -418,7 +423,11 @@ func ExecOpt(c OptCase) (res core.Result) {
 	if c.Pre {
 		// an earlier plugin already set this plugin's option(s) to something else
 		for _, code := range plugOptionCodes4(c.Plugin) {
-			stub.Options.Update(dhcpv4.OptGeneric(dhcpv4.GenericOptionCode(code), []byte{1, 2, 3, 4}))
+			pre := []byte{1, 2, 3, 4}
+			if c.PreHex != "" {
+				pre = gen.UnH(c.PreHex)
+			}
+			stub.Options.Update(dhcpv4.OptGeneric(dhcpv4.GenericOptionCode(code), pre))
 		}
 	}
 	before := stub.ToBytes()
